@@ -24,17 +24,18 @@ Import ListNotations.
 
 (* For every re-entrant program (listeners running any command, including dispatching their own
    event again, to any depth), every condition table and every fuel: after ANY history, a listener
-   added through CounterRemover with count n, INT_MIN < n <= INT_MAX,
+   added through CounterRemover with count n in the covered range rng (below: INT_MIN < n <= INT_MAX
+   for the code as it is; INT_MIN <= n for the specification),
    (1) has been called exactly once per trigger, with that trigger's key and argument, in order;
    (2) has seen at most max(n,1) triggers;
    (3) is attached iff it has seen fewer than max(n,1) triggers — unless someone removed its handle
        explicitly, (4) in which case it is detached;
    (5) while attached its counter is n minus the number of triggers and (6) no decrement left the int range.
    Since this holds after every history, no call can follow the max(n,1)-th trigger. *)
-Definition counter_exact (lf : leafs) : Prop :=
+Definition counter_exact (rng : Z -> Prop) (lf : leafs) : Prop :=
   forall behav cverdict fuel prog st h k c n,
     a_run lf behav cverdict fuel a_init prog = Some st ->
-    alookup h (ents st) = Some (k, SCounter c n) -> (int_min < n <= int_max)%Z ->
+    alookup h (ents st) = Some (k, SCounter c n) -> rng n ->
     let t := Z.of_nat (length (trigs_of h (atrace st))) in
     calls_of h (atrace st) = map (fun a => (c, k, a)) (trigs_of h (atrace st))
     /\ (t <= Z.max n 1)%Z
@@ -63,12 +64,12 @@ Definition conditional_exact (lf : leafs) : Prop :=
    running anything, nested dispatches included), the wrapper is triggered by that dispatch —
    unless its handle is removed explicitly meanwhile.  With the two statements above: the wrapped
    listener runs on the first max(n,1) triggers / on every trigger up to the first true verdict. *)
-Definition attached_is_triggered (lf : leafs) : Prop :=
+Definition attached_is_triggered (rng : Z -> Prop) (lf : leafs) : Prop :=
   forall behav cverdict fuel prog st fuel' k a st' h e,
     a_run lf behav cverdict fuel a_init prog = Some st ->
     a_run lf behav cverdict (S fuel') st [ADispatch k a] = Some st' ->
     alookup h (ents st) = Some (k, e) ->
-    match e with SPlain _ => False | SCounter _ n => (int_min < n <= int_max)%Z | SCond _ _ _ => True end ->
+    match e with SPlain _ => False | SCounter _ n => rng n | SCond _ _ _ => True end ->
     attached st h = true -> has_l h (xrem st') = false ->
     length (trigs_of h (atrace st)) < length (trigs_of h (atrace st')).
 
@@ -80,31 +81,43 @@ Definition helper_irrelevant (lf : leafs) : Prop :=
 
 (* ---- the code, as generated from the headers ---- *)
 
-Theorem C16_counter_remover_exact : forall islist, counter_exact (gen_leafs islist).
-Proof. exact (fun islist => counter_remover_exact _ (gen_leafs_ok islist)). Qed.
+Theorem C16_counter_remover_exact : forall islist, counter_exact in_range (gen_leafs islist).
+Proof. exact (fun islist => counter_remover_exact _ _ (gen_leafs_ok islist)). Qed.
 Print Assumptions C16_counter_remover_exact.
 
 Theorem C16_conditional_remover_exact : forall islist, conditional_exact (gen_leafs islist).
-Proof. exact (fun islist => conditional_remover_exact _ (gen_leafs_ok islist)). Qed.
+Proof. exact (fun islist => conditional_remover_exact _ _ (gen_leafs_ok islist)). Qed.
 Print Assumptions C16_conditional_remover_exact.
 
-Theorem C16_attached_wrapper_is_triggered : forall islist, attached_is_triggered (gen_leafs islist).
-Proof. exact (fun islist => attached_wrapper_is_triggered _ (gen_leafs_ok islist)). Qed.
+Theorem C16_attached_wrapper_is_triggered : forall islist, attached_is_triggered in_range (gen_leafs islist).
+Proof. exact (fun islist => attached_wrapper_is_triggered _ _ (gen_leafs_ok islist)). Qed.
 Print Assumptions C16_attached_wrapper_is_triggered.
 
 Theorem C16_helper_lifetime_irrelevant : forall islist, helper_irrelevant (gen_leafs islist).
-Proof. exact (fun islist => helper_lifetime_irrelevant _ (gen_leafs_ok islist)). Qed.
+Proof. exact (fun islist => helper_lifetime_irrelevant _ _ (gen_leafs_ok islist)). Qed.
 Print Assumptions C16_helper_lifetime_irrelevant.
 
-(* ---- the specification used as oracle satisfies the same statements ---- *)
+(* ---- the specification used as oracle satisfies the same statements, for EVERY count an int can hold ---- *)
 
 Theorem C16_specification_meets_the_statements :
-  counter_exact spec_leafs /\ conditional_exact spec_leafs /\ attached_is_triggered spec_leafs /\ helper_irrelevant spec_leafs.
+  counter_exact full_range spec_leafs /\ conditional_exact spec_leafs
+  /\ attached_is_triggered full_range spec_leafs /\ helper_irrelevant spec_leafs.
 Proof.
-  exact (conj (counter_remover_exact _ spec_leafs_ok) (conj (conditional_remover_exact _ spec_leafs_ok)
-        (conj (attached_wrapper_is_triggered _ spec_leafs_ok) (helper_lifetime_irrelevant _ spec_leafs_ok)))).
+  exact (conj (counter_remover_exact _ _ spec_leafs_ok_full) (conj (conditional_remover_exact _ _ spec_leafs_ok_full)
+        (conj (attached_wrapper_is_triggered _ _ spec_leafs_ok_full) (helper_lifetime_irrelevant _ _ spec_leafs_ok_full)))).
 Qed.
 Print Assumptions C16_specification_meets_the_statements.
+
+(* ---- a wrapper that does not decrement at or below 1 (`if(data->triggerCount <= 1 || --data->triggerCount <= 0)`,
+        guarded_leafs, written out by hand) meets the statements for every count, INT_MIN included:
+        the repair proposed for observation P9 ---- *)
+
+Theorem C16_guarded_counter_covers_every_count :
+  counter_exact full_range guarded_leafs /\ attached_is_triggered full_range guarded_leafs.
+Proof.
+  exact (conj (counter_remover_exact _ _ guarded_leafs_ok_full) (attached_wrapper_is_triggered _ _ guarded_leafs_ok_full)).
+Qed.
+Print Assumptions C16_guarded_counter_covers_every_count.
 
 (* n = INT_MIN is excluded above for a reason.  legacy_leafs is the counter wrapper of the tree this
    development started from, written out by hand: `if(--data->triggerCount <= 0)` on a 32-bit int,
